@@ -404,7 +404,19 @@ def _isclose_scalar(a, b, rtol, atol):
     sq = d.re_sym() * d.re_sym() + d.im_sym() * d.im_sym()
     r = (sq <= rhs * rhs)
     nonneg = rhs >= 0
-    return SBool.of(r) & SBool.of(nonneg)
+    rb = SBool.of(r)
+    if core.CTX.active and rb.k != "const" and rhs.isreal():
+        # linear consequences of the modulus test, valid over the reals (they let the linear back end decide threshold claims
+        # without expanding squares):  c := re^2 + im^2 <= rhs^2, rhs >= 0
+        #   c  =>  |re| <= rhs and |im| <= rhs ;      |re|, |im| <= 0.7 rhs  =>  c      (0.49 + 0.49 <= 1)
+        import z3 as _z3
+        cz = rb.z3()
+        rez, imz, rhz = d.re.z3(), d.im.z3(), rhs.re.z3()
+        k7 = _z3.RealVal("7/10")
+        core.CTX.add_def(_z3.And(
+            _z3.Implies(_z3.And(cz, rhz >= 0), _z3.And(rez <= rhz, -rez <= rhz, imz <= rhz, -imz <= rhz)),
+            _z3.Implies(_z3.And(rhz >= 0, rez <= k7 * rhz, -rez <= k7 * rhz, imz <= k7 * rhz, -imz <= k7 * rhz), cz)))
+    return rb & SBool.of(nonneg)
 
 
 def _isclose(a, b, rtol=1e-05, atol=1e-08, equal_nan=False):
